@@ -17,6 +17,8 @@ func main() {
 		relMain(os.Args[2:])
 	case "softcol":
 		softColMain(os.Args[2:])
+	case "resource":
+		resourceMain(os.Args[2:])
 	case "schema":
 		schemaMain(os.Args[2:])
 	default:
